@@ -630,6 +630,22 @@ func (e *fdEngine) analyze(fn *ssa.Function, t *fdTerm) ([]fdFinding, map[*ssa.B
 						rep = true
 					}
 				}
+				// the comma-ok idiom: a function without an error result that returns ok == false on this path
+				// reports the failure that way (its caller tests ok)
+				if ops := retOperands(x); len(ops) > 0 && !rep {
+					hasErrResult := false
+					for _, rv := range ops {
+						if isErrT(rv.Type()) {
+							hasErrResult = true
+						}
+					}
+					last := ops[len(ops)-1]
+					if bt, ok := last.Type().Underlying().(*types.Basic); ok && bt.Kind() == types.Bool && !hasErrResult {
+						if k, ok := last.(*ssa.Const); ok && k.Value != nil && k.Value.String() == "false" {
+							rep = true
+						}
+					}
+				}
 				if rep {
 					s = s.report()
 				}
